@@ -8,6 +8,7 @@ Record case := {
   k_cfg : cfg;
   k_pts : list pt;
   k_bare : bool;          (* true: G.write(pts); G.close()   false: with PGMCompiler(...) as G: G.write(pts) *)
+  k_open0 : bool;         (* bare only: G.shutter('ON') first, so that write is entered with the shutter open *)
   k_toks : list tok;      (* lexed file written by femto ([] when none) *)
   k_written : bool;
   k_raised : N;           (* 0 = no exception, else the kind *)
@@ -18,8 +19,9 @@ Definition tol_of (c : cfg) : Z := pow10 (9 - digits c).
 
 Definition model (k : case) : session_result :=
   if k_bare k then
-    let '(st, e, o) := do_write (k_cfg k) c0 (k_pts k) in
-    Written (c_pre st ++ flatten e) (c_dwell st) o
+    let '(st0, e0) := if k_open0 k then do_shutter (k_cfg k) c0 true else (c0, []) in
+    let '(st, e, o) := do_write (k_cfg k) st0 (k_pts k) in
+    Written (c_pre st ++ flatten (e0 ++ e)) (c_dwell st) o
   else session (k_cfg k) [OWrite (k_pts k)].
 
 Definition q_close (a b : Q) : bool :=
